@@ -265,6 +265,12 @@ func handleResumption(
 	return Flight5b, nil, nil
 }
 
+// offeredEllipticCurve reports whether curve is one of the groups this client
+// offered in its ClientHello.
+func offeredEllipticCurve(cfg *dtlsconfig.HandshakeConfig, curve elliptic.Curve) bool {
+	return slices.Contains(supportedEllipticCurves(cfg.EllipticCurves), curve)
+}
+
 //nolint:cyclop
 func handleServerKeyExchange(
 	_ dtlsflight.Conn,
@@ -291,6 +297,10 @@ func handleServerKeyExchange(
 		case ciphersuite.KeyExchangeAlgorithmPsk:
 			state.PreMasterSecret = prf.PSKPreMasterSecret(psk)
 		case (ciphersuite.KeyExchangeAlgorithmEcdhe | ciphersuite.KeyExchangeAlgorithmPsk):
+			if !offeredEllipticCurve(cfg, keyExchangeMessage.NamedCurve) {
+				return &alert.Alert{Level: alert.Fatal, Description: alert.IllegalParameter},
+					dtlserrors.ErrNoSupportedEllipticCurves
+			}
 			if state.LocalKeypair, err = elliptic.GenerateKeypair(keyExchangeMessage.NamedCurve); err != nil {
 				return &alert.Alert{Level: alert.Fatal, Description: alert.InternalError}, err
 			}
@@ -307,6 +317,10 @@ func handleServerKeyExchange(
 			return &alert.Alert{Level: alert.Fatal, Description: alert.InsufficientSecurity}, dtlserrors.ErrInvalidCipherSuite
 		}
 	} else {
+		if !offeredEllipticCurve(cfg, keyExchangeMessage.NamedCurve) {
+			return &alert.Alert{Level: alert.Fatal, Description: alert.IllegalParameter},
+				dtlserrors.ErrNoSupportedEllipticCurves
+		}
 		if state.LocalKeypair, err = elliptic.GenerateKeypair(keyExchangeMessage.NamedCurve); err != nil {
 			return &alert.Alert{Level: alert.Fatal, Description: alert.InternalError}, err
 		}
